@@ -40,8 +40,10 @@ func faultKinds(thorough bool) []faultKind {
 		{Name: "close_mid:12", F: fakemc.Fault{Kind: "close_mid", Cut: 12}, Class: "close_mid"},
 	}
 	if thorough {
-		for _, st := range []uint16{fakemc.StInval, fakemc.StUnknown, fakemc.StNotSupported, fakemc.StInternal, fakemc.StTemp,
-			fakemc.StNotFound, fakemc.StExists, fakemc.StNotStored, 0x06, 0x20} {
+		// every memcached ERROR status. "Not found", "exists" and "not stored" are not in the list: they are
+		// ordinary outcomes, a backend that gives them out of place is lying about its contents (no proxy can
+		// tell a false "not found" from a true one), which is not the fault model of C10
+		for _, st := range []uint16{fakemc.StInval, fakemc.StUnknown, fakemc.StNotSupported, fakemc.StInternal, fakemc.StTemp, 0x06, 0x20} {
 			ks = append(ks, faultKind{Name: fmt.Sprintf("status:%#x", st), F: fakemc.Fault{Kind: "status", Status: st}, Class: "status"})
 		}
 		for _, cut := range []int{0, 1, 23, 24, 25, 30, 1000000} {
